@@ -56,7 +56,7 @@ BOOL_KEYS = {"And": "BAnd", "Or": "BOr"}
 PRIMS = {"add": "P_add", "sub": "P_sub", "mul": "P_mul", "truediv": "P_truediv", "floordiv": "P_floordiv",
          "mod": "P_mod", "pow": "P_pow", "xor": "P_xor", "and_": "P_and_", "or_": "P_or_", "neg": "P_neg",
          "not_": "P_not_", "pos": "P_pos", "invert": "P_invert", "inv": "P_invert", "eq": "P_eq", "ne": "P_ne",
-         "lt": "P_lt", "le": "P_le", "gt": "P_gt", "ge": "P_ge"}
+         "lt": "P_lt", "le": "P_le", "gt": "P_gt", "ge": "P_ge", "contains": "P_contains"}
 
 
 def _table(tree, name, opmod):
@@ -138,6 +138,7 @@ def translate(repo, gendir):
     txt += fn("operators", "opkey", "prim", AST_KEYS, ops)
     txt += fn("comparisons", "cmpkey", "prim", CMP_KEYS, cmps)
     txt += fn("bool_operators", "boolkey", "bprim", BOOL_KEYS, bops)
+    txt += fn("node_methods", "nodekey", "method", NODE_KEYS, _node_methods(tree))
     os.makedirs(gendir, exist_ok=True)
     p = os.path.join(gendir, "Tables.v")
     if not os.path.exists(p) or open(p).read() != txt:
@@ -145,10 +146,73 @@ def translate(repo, gendir):
             f.write(txt)
 
 
+NODE_KEYS = {"Num": "NNum", "Str": "NStr", "NameConstant": "NNameConstant", "Constant": "NConstant", "BinOp": "NBinOp",
+             "UnaryOp": "NUnaryOp", "Compare": "NCompare", "BoolOp": "NBoolOp", "Attribute": "NAttribute",
+             "Subscript": "NSubscript", "Name": "NName", "IfExp": "NIfExp", "Tuple": "NTuple", "List": "NList",
+             "Dict": "NDict", "Call": "NCall", "Set": "NSet", "Lambda": "NLambda", "JoinedStr": "NJoinedStr"}
+METHODS = {"_eval_num": "M_eval_num", "_eval_str": "M_eval_str", "_eval_constant": "M_eval_constant",
+           "_eval_bin_op": "M_eval_bin_op", "_eval_unary_op": "M_eval_unary_op", "_eval_compare": "M_eval_compare",
+           "_eval_bool_op": "M_eval_bool_op", "_eval_attribute": "M_eval_attribute", "_eval_subscript": "M_eval_subscript",
+           "_eval_name": "M_eval_name", "_eval_if": "M_eval_if", "_eval_tuple": "M_eval_tuple"}
+
+
+def _node_methods(tree):
+    """BasePlaceholderManager.__init__: self._eval_methods = {ast.X: self._eval_y, ...} followed by optional
+    `if hasattr(ast, "X"): self._eval_methods[ast.X] = self._eval_y` (evaluated on the running Python's ast)"""
+    def entry(k, v):
+        if not (isinstance(k, ast.Attribute) and isinstance(k.value, ast.Name) and k.value.id == "ast"):
+            raise ValueError("translate:placeholder_manager.py:_eval_methods key %s" % ast.unparse(k))
+        if not (isinstance(v, ast.Attribute) and isinstance(v.value, ast.Name) and v.value.id == "self" and v.attr in METHODS):
+            raise ValueError("translate:placeholder_manager.py:_eval_methods value %s" % ast.unparse(v))
+        if k.attr not in NODE_KEYS:
+            raise ValueError("translate:placeholder_manager.py:_eval_methods key ast.%s not representable" % k.attr)
+        return k.attr, METHODS[v.attr]
+
+    def is_table(t):
+        return isinstance(t, ast.Attribute) and t.attr == "_eval_methods" and isinstance(t.value, ast.Name) and t.value.id == "self"
+    for node in tree.body:
+        if isinstance(node, ast.ClassDef) and node.name == "BasePlaceholderManager":
+            for f in node.body:
+                if isinstance(f, ast.FunctionDef) and f.name == "__init__":
+                    out = None
+                    for st in f.body:
+                        if isinstance(st, ast.Assign) and len(st.targets) == 1 and is_table(st.targets[0]):
+                            if not isinstance(st.value, ast.Dict) or out is not None:
+                                raise ValueError("translate:placeholder_manager.py:_eval_methods is not one dict literal")
+                            out = dict(entry(k, v) for k, v in zip(st.value.keys, st.value.values))
+                            continue
+                        body = [st]
+                        if isinstance(st, ast.If):
+                            t = st.test
+                            if not (isinstance(t, ast.Call) and isinstance(t.func, ast.Name) and t.func.id == "hasattr" and
+                                    len(t.args) == 2 and isinstance(t.args[0], ast.Name) and t.args[0].id == "ast" and
+                                    isinstance(t.args[1], ast.Constant) and not st.orelse):
+                                raise ValueError("translate:placeholder_manager.py:__init__ unsupported if")
+                            body = st.body if hasattr(ast, t.args[1].value) else []
+                        for b in body:
+                            if isinstance(b, ast.Assign) and len(b.targets) == 1 and isinstance(b.targets[0], ast.Subscript) \
+                                    and is_table(b.targets[0].value):
+                                if out is None:
+                                    raise ValueError("translate:placeholder_manager.py:_eval_methods updated before it is built")
+                                k, m = entry(b.targets[0].slice, b.value)
+                                out[k] = m
+                            elif isinstance(b, ast.Expr) and isinstance(b.value, ast.Call) and \
+                                    isinstance(b.value.func, ast.Attribute) and b.value.func.attr == "__init__":
+                                continue                      # super().__init__(machine)
+                            elif isinstance(b, ast.Expr) and isinstance(b.value, ast.Constant):
+                                continue                      # docstring
+                            else:
+                                raise ValueError("translate:placeholder_manager.py:__init__ unsupported statement %s" % ast.unparse(b)[:60])
+                    if out is None:
+                        raise ValueError("translate:placeholder_manager.py:_eval_methods not found")
+                    return out
+    raise ValueError("translate:placeholder_manager.py:BasePlaceholderManager.__init__ not found")
+
+
 def _shape_guard(tree):
     """fail closed when the walker methods the hand model mirrors disappear or change their signature"""
     want = {"_eval_if", "_eval_bin_op", "_eval_unary_op", "_eval_compare", "_eval_bool_op", "_eval_attribute",
-            "_eval_subscript", "_eval_name", "_eval", "evaluate_template", "evaluate_and_subscribe_template"}
+            "_eval_subscript", "_eval_name", "_eval", "_eval_tuple", "evaluate_template", "evaluate_and_subscribe_template"}
     have = {}
     for node in tree.body:
         if isinstance(node, ast.ClassDef) and node.name == "BasePlaceholderManager":
@@ -158,7 +222,7 @@ def _shape_guard(tree):
     for w in want:
         if w not in have:
             raise ValueError("translate:placeholder_manager.py:BasePlaceholderManager.%s missing" % w)
-    for w in ("_eval_if", "_eval_bin_op", "_eval_unary_op", "_eval_compare", "_eval_bool_op"):
+    for w in ("_eval_if", "_eval_bin_op", "_eval_unary_op", "_eval_compare", "_eval_bool_op", "_eval_tuple", "_eval_subscript"):
         if have[w] != ["self", "node", "variables", "subscribe"]:
             raise ValueError("translate:placeholder_manager.py:%s signature changed" % w)
 
@@ -202,8 +266,45 @@ def untag(t):
     raise ValueError(t)
 
 
+_NAMED = {}
+
+
+def _register_names():
+    """string constants that occur in almost every case are printed as identifiers defined once in the header of the
+    cases file (parsing long numeral lists dominates coqc's time otherwise)"""
+    names = (PARAMS + ["zz", "tu", "st", "li"] + MVARS + list(SETTINGS) + SWITCHES + PREADS + PVARS +
+             ["switches", "flippers", "fl", "state", "enabled", "nope", "m1", "nomode", "active", "priority", "stopping",
+              "index", "number", "ball", "score"] + list(GAME_ATTRS))
+    for n in names:
+        _NAMED.setdefault(n, "S_" + n)
+    for i, n in enumerate(STRS):
+        _NAMED.setdefault(n, "L_%d" % i)
+
+
+def names_header():
+    if not _NAMED:
+        _register_names()
+    return "".join("Definition %s : list Z := %s.\n" % (ident, zlist([ord(c) for c in n])) for n, ident in _NAMED.items())
+
+
 def cstr(s):
-    return zlist([ord(c) for c in s])
+    if not _NAMED:
+        _register_names()
+    return _NAMED.get(s) or zlist([ord(c) for c in s])
+
+
+# floats of the model: finite, zero or of magnitude in [2^-500, 2^500) (the model rounds correctly in
+# [2^-1000, 2^1000); the narrower window keeps every intermediate of float // and % inside it)
+FL_LO, FL_HI = 2.0 ** -500, 2.0 ** 500
+
+
+def float_ok(x):
+    return x == x and x not in (float("inf"), float("-inf")) and (x == 0 or FL_LO <= abs(x) < FL_HI)
+
+
+def cfloat(x, con="VFloat"):
+    n, d = float(x).as_integer_ratio()
+    return "(%s %s %d%%positive)" % (con, zlit(n), d)
 
 
 def cval(t):
@@ -216,11 +317,26 @@ def cval(t):
         return "(VInt %s)" % zlit(int(t[1]))
     if k == "s":
         return "(VStr %s)" % cstr(t[1])
+    if k == "f":
+        return cfloat(float(t[1]))
+    if k == "t":
+        return "(VTuple %s)" % coqlist(cval(x) for x in t[1])
     raise ValueError(k)
 
 
 def in_dom(t):
-    return t[0] in ("n", "b", "i", "s")
+    k = t[0]
+    if k in ("n", "b", "i", "s"):
+        return True
+    if k == "f":
+        return float_ok(float(t[1]))
+    if k == "t":
+        return all(in_dom(x) for x in t[1])
+    return False
+
+
+def val_in_dom(v):
+    return in_dom(tagv(v))
 
 
 # ------------------------------------------------------------------------------------------------
@@ -232,14 +348,21 @@ PY_BIN = {
 }
 PY_UN = {"USub": lambda a: -a, "Not": lambda a: not a}
 PY_CMP = {"Eq": lambda a, b: a == b, "NotEq": lambda a, b: a != b, "Lt": lambda a, b: a < b,
-          "LtE": lambda a, b: a <= b, "Gt": lambda a, b: a > b, "GtE": lambda a, b: a >= b}
+          "LtE": lambda a, b: a <= b, "Gt": lambda a, b: a > b, "GtE": lambda a, b: a >= b,
+          "In": lambda a, b: a in b, "NotIn": lambda a, b: a not in b}
+MPF_CMP = ("Eq", "NotEq", "Lt", "LtE", "Gt", "GtE")          # the comparisons of the property's grammar
 PY_BOOL = {"And": lambda a, b: a and b, "Or": lambda a, b: a or b}
 SYM = {"Add": "+", "Sub": "-", "Mult": "*", "Div": "/", "FloorDiv": "//", "Mod": "%", "Pow": "**", "BitXor": "^",
-       "Eq": "==", "NotEq": "!=", "Lt": "<", "LtE": "<=", "Gt": ">", "GtE": ">=", "And": "and", "Or": "or"}
+       "Eq": "==", "NotEq": "!=", "Lt": "<", "LtE": "<=", "Gt": ">", "GtE": ">=", "And": "and", "Or": "or",
+       "In": "in", "NotIn": "not in"}
 
 
 class TooBig(Exception):
     pass
+
+
+def is_num(x):
+    return isinstance(x, (int, float))
 
 
 def guard_size(kind, op, a, b=None):
@@ -261,7 +384,7 @@ def check_size(v):
 
 
 def py_apply(kind, op, a, b=None):
-    """-> ("val", v) | ("type",) | ("zero",) | ("other", name)"""
+    """-> ("val", v) | ("type",) | ("zero",) | ("index",) | ("other", name)"""
     import warnings
     try:
         with warnings.catch_warnings():
@@ -275,13 +398,35 @@ def py_apply(kind, op, a, b=None):
                 return ("val", PY_UN[op](a))
             if kind == "cmp":
                 return ("val", PY_CMP[op](a, b))
+            if kind == "index":
+                return ("val", a[b])
             return ("val", PY_BOOL[op](a, b))
     except TypeError:
         return ("type",)
     except ZeroDivisionError:
         return ("zero",)
+    except IndexError:
+        return ("index",)
     except Exception as e:     # OverflowError, ValueError (e.g. negative shift), ...
         return ("other", type(e).__name__)
+
+
+def model_unsup(kind, op, a, b, r):
+    """the operator applications the Coq model declares Unsup (outside the modelled domain)"""
+    if not val_in_dom(a) or (kind != "un" and not val_in_dom(b)):
+        return True
+    if r[0] == "val" and not val_in_dom(r[1]):
+        return True
+    if r[0] == "other":
+        return True
+    if kind == "bin" and op == "Pow" and is_num(a) and is_num(b):
+        if isinstance(a, float) or isinstance(b, float):
+            return True                                   # C pow()
+        if b < 0 and a != 0:
+            return True
+    if kind == "bin" and op == "Mod" and isinstance(a, str) and "%" in a:
+        return True                                       # string formatting
+    return False
 
 
 def has_float(v):
@@ -294,33 +439,83 @@ def has_float(v):
 
 # ================================================================================================
 # suite "ops": reference semantics against CPython, and MPF's evaluate of 'a <op> b' by the oracle
-INTS = [0, 1, -1, 2, -2, 3, 7, -7, 10, 12, 63, 64, -64, 255, 2 ** 31, -2 ** 31 - 1, 10 ** 18, -10 ** 18 + 3]
+INTS = [0, 1, -1, 2, -2, 3, 7, -7, 10, 12, 63, 64, -64, 255, 2 ** 31, -2 ** 31 - 1, 10 ** 18, -10 ** 18 + 3,
+        2 ** 53, 2 ** 53 + 1, -2 ** 53 - 1, 10 ** 16 + 1, 3 ** 40]
 STRS = ["", "a", "b", "ab", "abc", "aB", "A", "é", "ab ", "0", "10", "9", "€", "a😀", "zz"]
-FLOATS = [0.0, -0.0, 0.5, -1.5, 2.0, 1e16, 0.1, 3.0000000000000004, float("inf"), float("nan"), 1e308]
+FLOATS = [0.0, -0.0, 0.5, -1.5, 2.0, 1e16, 0.1, 3.0000000000000004, 1.0, -1.0, 0.3, 0.7, 2.5, -0.75, 7.0, -7.0,
+          1 / 3, 1e-5, 123456789.125, 2.0 ** 53, 9007199254740993.0, 0.30000000000000004, 1e22, 1e18, -1e18, 64.0,
+          4.35, 1e-300, 1e300, 5e-324, float("inf"), float("-inf"), float("nan"), 1e308]
 
 
-def rvalue(rng, floats=False):
+def rfloat(rng):
+    r = rng.random()
+    if r < 0.6:
+        return rng.choice(FLOATS)
+    if r < 0.8:
+        return rng.randint(-80, 80) / 8
+    if r < 0.9:
+        return rng.randint(-400, 400) / 10
+    return rng.uniform(-5, 5) * 10 ** rng.randint(-6, 12)
+
+
+def rscalar(rng, floats=True):
     r = rng.random()
     if r < 0.10:
         return None
-    if r < 0.25:
+    if r < 0.22:
         return rng.choice([True, False])
-    if r < 0.62:
+    if r < 0.55:
         return rng.choice(INTS) if rng.random() < 0.7 else rng.randint(-40, 40)
-    if floats and r < 0.72:
-        return rng.choice(FLOATS) if rng.random() < 0.7 else rng.randint(-40, 40) / 8
+    if floats and r < 0.75:
+        return rfloat(rng)
+    return rng.choice(STRS)
+
+
+def rvalue(rng, floats=True, tuples=True, depth=0):
+    if tuples and depth < 2 and rng.random() < 0.14:
+        return tuple(rvalue(rng, floats, True, depth + 1) for _ in range(rng.choice([0, 1, 1, 2, 2, 3])))
+    return rscalar(rng, floats)
+
+
+def small_float(rng):
+    """floats kept in machine / player variables: small dyadic values, so that  value - prev  is exact (a change is
+    then announced iff the values differ)"""
+    return rng.randint(-64, 64) / 8
+
+
+def rstored(rng):
+    r = rng.random()
+    if r < 0.10:
+        return None
+    if r < 0.22:
+        return rng.choice([True, False])
+    if r < 0.58:
+        return rng.choice(INTS[:18]) if rng.random() < 0.6 else rng.randint(-40, 40)
+    if r < 0.72:
+        return small_float(rng)
     return rng.choice(STRS)
 
 
 def gen_ops(rng, tier, i):
-    floats = rng.random() < 0.15
-    kind = rng.choice(["bin", "bin", "bin", "cmp", "cmp", "un", "bool"])
-    op = rng.choice(list({"bin": PY_BIN, "un": PY_UN, "cmp": PY_CMP, "bool": PY_BOOL}[kind]))
+    kind = rng.choice(["bin", "bin", "bin", "bin", "cmp", "cmp", "cmp", "un", "bool", "index"])
+    op = rng.choice(list({"bin": PY_BIN, "un": PY_UN, "cmp": PY_CMP, "bool": PY_BOOL, "index": {"Index": 0}}[kind]))
     while True:
-        a = rvalue(rng, floats)
-        b = rvalue(rng, floats) if kind != "un" else None
-        if rng.random() < 0.15 and kind != "un":
+        a = rvalue(rng)
+        b = rvalue(rng) if kind != "un" else None
+        r = rng.random()
+        if kind != "un" and r < 0.12:
             b = a                                              # coincidences: equal operands
+        elif kind != "un" and r < 0.30 and is_num(a) and not isinstance(a, bool):
+            b = rng.choice([rfloat(rng), rng.choice(INTS), rng.randint(-9, 9)])       # number x number
+        elif kind == "cmp" and r < 0.45 and isinstance(a, tuple):
+            b = a[:rng.randint(0, len(a))] + tuple(rvalue(rng, True, False) for _ in range(rng.choice([0, 1, 2])))
+        if kind == "index":
+            a = rng.choice([rng.choice(STRS), tuple(rscalar(rng) for _ in range(rng.randint(0, 4))), a])
+            b = rng.choice([rng.randint(-5, 5), rng.randint(-2, 2), True, False, b])
+        if kind == "cmp" and op in ("In", "NotIn") and rng.random() < 0.7:
+            b = rng.choice([rng.choice(STRS), tuple(rscalar(rng) for _ in range(rng.randint(0, 4)))])
+            if rng.random() < 0.5 and len(b):
+                a = rng.choice(b) if isinstance(b, tuple) else b[rng.randint(0, len(b) - 1):][:rng.randint(0, 2)]
         try:
             guard_size(kind, op, a, b)
             r = py_apply(kind, op, a, b)
@@ -349,6 +544,8 @@ def mpf_eval(pm, kind, text, default, params, subscribe=False):
             t = pm.build_raw_template(text, default)
         elif kind == "bool":
             t = pm.build_bool_template(text, default)
+        elif kind == "float":
+            t = pm.build_float_template(text, default)
         else:
             t = pm.build_int_template(text, default)
         if subscribe:
@@ -369,11 +566,13 @@ def run_ops(case):
     b = untag(case["b"]) if case["b"] is not None else None
     kind, op = case["kind"], case["op"]
     r = py_apply(kind, op, a, b)
-    out = {"py": [r[0]] + ([tagv(r[1])] if r[0] == "val" else list(r[1:]))}
+    out = {"py": [r[0]] + ([tagv(r[1])] if r[0] == "val" else list(r[1:])), "unsup": model_unsup(kind, op, a, b, r)}
     rig = _ops_rig()
     pm = rig.machine.placeholder_manager
     if kind == "un":
         text = ("-a" if op == "USub" else "not a")
+    elif kind == "index":
+        text = "a[b]"
     else:
         text = "a %s b" % SYM[op]
     out["mpf"] = mpf_eval(pm, "raw", text, "DEFAULT", {"a": a, "b": b})
@@ -382,22 +581,13 @@ def run_ops(case):
 
 
 def coq_ops(case, out):
-    ts = [case["a"]] + ([case["b"]] if case["b"] is not None else [])
-    if not all(in_dom(t) for t in ts):
+    if out["unsup"]:
         return None
     r = out["py"]
     if r[0] == "val":
-        if not in_dom(r[1]):
-            return None                                       # float result: outside the modelled domain
         exp = "(Val %s)" % cval(r[1])
-    elif r[0] == "type":
-        if case["kind"] == "bin" and case["op"] == "Mod" and case["a"][0] == "s" and "%" in case["a"][1]:
-            return None
-        exp = "TypeErr"
-    elif r[0] == "zero":
-        exp = "ZeroDiv"
     else:
-        return None
+        exp = {"type": "TypeErr", "zero": "ZeroDiv", "index": "IndexErr"}[r[0]]
     kind, op = case["kind"], case["op"]
     if kind == "bin":
         inp = "(OBin %s %s %s)" % (AST_KEYS[op], cval(case["a"]), cval(case["b"]))
@@ -405,9 +595,15 @@ def coq_ops(case, out):
         inp = "(OUn %s %s)" % (AST_KEYS[op], cval(case["a"]))
     elif kind == "cmp":
         inp = "(OCmp %s %s %s)" % (CMP_KEYS[op], cval(case["a"]), cval(case["b"]))
+    elif kind == "index":
+        inp = "(OIndex %s %s)" % (cval(case["a"]), cval(case["b"]))
     else:
         inp = "(OBool %s %s %s)" % (BOOL_KEYS[op], cval(case["a"]), cval(case["b"]))
     return "(%s, %s)" % (inp, exp)
+
+
+def conv_kind(kind, v):
+    return v if kind == "raw" else bool(v) if kind == "bool" else float(v) if kind == "float" else int(v)
 
 
 def expect_evaluate(ref, kind, default):
@@ -418,7 +614,7 @@ def expect_evaluate(ref, kind, default):
         if v is None:
             return {"v": tagv(default)}
         try:
-            return {"v": tagv(v if kind == "raw" else bool(v) if kind == "bool" else int(v))}
+            return {"v": tagv(conv_kind(kind, v))}
         except Exception:
             return None
     if ref[0] in ("type", "name", "read"):
@@ -427,13 +623,11 @@ def expect_evaluate(ref, kind, default):
 
 
 def expect_subscribe(ref, kind, default):
-    def conv(v):
-        return v if kind == "raw" else bool(v) if kind == "bool" else int(v)
     try:
         if ref[0] == "val":
-            return {"v": tagv(conv(default if ref[1] is None else ref[1]))}
+            return {"v": tagv(conv_kind(kind, default if ref[1] is None else ref[1]))}
         if ref[0] in ("type", "read"):
-            return {"v": tagv(conv(default))}
+            return {"v": tagv(conv_kind(kind, default))}
     except Exception:
         return None
     return None
@@ -445,6 +639,8 @@ def same_out(got, want):
 
 def oracle_ops(case, out):
     r = out["py"]
+    if case["kind"] == "cmp" and case["op"] not in MPF_CMP:
+        return []                                   # in / not in: not in the property's grammar (KeyError -> AssertionError)
     ref = ("val", untag(r[1])) if r[0] == "val" else tuple(r)
     want = expect_evaluate(ref, "raw", "DEFAULT")
     if want is None or same_out(out["mpf"], want):
@@ -462,10 +658,15 @@ def shrink_ops(case):
         t = case[key]
         if t is None:
             continue
-        for small in (["i", "0"], ["i", "1"], ["s", ""], ["s", "a"], ["n"]):
+        for small in (["i", "0"], ["i", "1"], ["s", ""], ["s", "a"], ["n"], ["f", "0.5"], ["f", "1.0"], ["t", []]):
             if t != small and t[0] == small[0]:
                 c = dict(case)
                 c[key] = small
+                yield c
+        if t[0] == "t":
+            for j in range(len(t[1])):
+                c = dict(case)
+                c[key] = ["t", t[1][:j] + t[1][j + 1:]]
                 yield c
 
 
@@ -477,7 +678,8 @@ def describe_ops(case):
 # suite "expr": expressions on the real PlaceholderManager
 PARAMS = ["p", "q", "r", "s"]
 MVARS = ["mv_a", "mv_b", "mv_c", "mv_d"]
-PVARS = ["pv_a", "pv_b"]
+PVARS = ["pv_a", "pv_b", "score"]                  # settable player variables
+PREADS = ["pv_a", "pv_b", "score", "ball", "number"]
 SETTINGS = {"s_a": {"label": "A", "sort": 1, "key_type": "int", "default": "0",
                     "values": {"0": "zero", "1": "one", "2": "two", "5": "five"}},
             # settings whose backing machine variable is NOT named like the setting (machine_var: indirection)
@@ -489,66 +691,179 @@ SETTING_VALUES = {"s_a": [0, 1, 2, 5], "s_b": ["lo", "hi", "x"], "s_c": [1, 2, 3
 SETTING_DEFAULT = {"s_a": 0, "s_b": "lo", "s_c": 1}
 SETTING_MV = {"s_a": "s_a", "s_b": "sb_backing", "s_c": "other_name_c"}
 SWITCHES = ["sw_a", "sw_b"]
+MAX_PLAYERS = 4
+BALLS_PER_GAME = 2
 MACHINE_CONFIG = {"settings": SETTINGS,
-                  "switches": {"sw_a": {"number": "1"}, "sw_b": {"number": "2"}, "s_start": {"number": "3", "tags": "start"}}}
+                  "switches": {"sw_a": {"number": "1"}, "sw_b": {"number": "2"}, "s_start": {"number": "3", "tags": "start"},
+                               "s_flip": {"number": "4"}},
+                  "coils": {"c_flip": {"number": "1", "default_pulse_ms": 10, "allow_enable": True}},
+                  # a device whose monitored attribute is ALIASED (_enabled -> "enabled") and set through __setattr__
+                  "flippers": {"fl": {"main_coil": "c_flip", "activation_switch": "s_flip", "enable_events": "fl_on",
+                                      "disable_events": "fl_off"}},
+                  "modes": ["m1"],
+                  "game": {"balls_per_game": BALLS_PER_GAME, "max_players": MAX_PLAYERS}}
+MODES_CONFIG = {"m1": {"mode": {"start_events": "m1_start", "stop_events": "m1_stop", "priority": 200, "game_mode": False}}}
+GAME_ATTRS = {"num_players": None, "max_players": MAX_PLAYERS, "tilted": False, "slam_tilted": False,
+              "balls_per_game": BALLS_PER_GAME}
+DEVICE_READS = [("switches", "sw_a", "state"), ("switches", "sw_b", "state"), ("flippers", "fl", "enabled"),
+                ("switches", "sw_a", "nope")]
 
 LITS = [0, 1, 2, 3, 5, 7, 10, 64, 255, 2 ** 31, 10 ** 18]
+FLITS = [0.5, 1.5, 2.0, 0.1, 1e16, 3.25, 0.0, 1.0, 2.5, 0.3, 7.0, 1e-3, 123.456]
+
+
+def norm_tree(t):
+    """accept the read forms of older corpus files"""
+    k = t[0]
+    if k == "read":
+        if t[1] == "device" and len(t) == 3:
+            return ["read", "device", "switches", t[2], "state"]
+        return t
+    if k in ("bin", "cmp"):
+        return [k, t[1], norm_tree(t[2]), norm_tree(t[3])]
+    if k == "un":
+        return [k, t[1], norm_tree(t[2])]
+    if k == "boolop":
+        return [k, t[1], [norm_tree(x) for x in t[2]]]
+    if k == "tuple":
+        return [k, [norm_tree(x) for x in t[1]]]
+    if k == "if":
+        return [k] + [norm_tree(x) for x in t[1:4]]
+    if k == "sub":
+        return [k, norm_tree(t[1]), norm_tree(t[2])]
+    return t
+
+
+NODE_TAGS = ("bin", "un", "cmp", "boolop", "if", "tuple", "sub", "num", "str", "name", "read", "none", "bool", "flt")
+
+
+def norm_env(e):
+    e = dict(e)
+    if "game" not in e:
+        e["game"] = {"cur": 0, "n": 1} if e.pop("in_game", False) else None
+        pv = e.get("pvars", {})
+        e["pvars"] = {"0": pv} if (pv and e["game"]) else {}
+    if e["game"] is not None and "balls" not in e["game"]:
+        e["game"] = dict(e["game"], balls=[1, 0, 0, 0])
+    e.setdefault("flipper", False)
+    e.setdefault("modes", {"m1": False})
+    return e
+
+
+def norm_change(ch):
+    if ch[0] == "pv" and len(ch) == 3:
+        return ["pv", 0, ch[1], ch[2]]
+    return ch
+
+
+def norm_case(case):
+    c = dict(case)
+    c["tree"] = norm_tree(case["tree"])
+    c["env"] = norm_env(case["env"])
+    if "changes" in c:
+        c["changes"] = [norm_change(x) for x in c["changes"]]
+    return c
 
 
 def rlit(rng, ext):
     r = rng.random()
-    if r < 0.50:
+    if r < 0.42:
         return ["num", str(rng.choice(LITS) if rng.random() < 0.8 else rng.randint(0, 40))]
-    if r < 0.72:
+    if r < 0.62:
         return ["str", rng.choice(STRS)]
-    if r < 0.82:
+    if r < 0.70:
         return ["none"]
-    if ext and r < 0.92:
-        return ["flt", repr(abs(rng.choice([0.5, 1.5, 2.0, 0.1, 1e16, 3.25])))]
+    if r < 0.88:
+        if ext and rng.random() < 0.3:
+            return ["flt", repr(rng.choice([1e308, 1e-320, float("inf"), 1e200]))]
+        return ["flt", repr(abs(rng.choice(FLITS) if rng.random() < 0.8 else rng.randint(0, 80) / 8))]
     return ["bool", rng.random() < 0.5]
 
 
-def rleaf(rng, ext, names):
+def rread(rng):
+    r = rng.random()
+    if r < 0.34:
+        return ["read", "machine", rng.choice(MVARS)]
+    if r < 0.46:
+        return ["read", "settings", rng.choice(list(SETTINGS))]
+    if r < 0.60:
+        c, d, a = rng.choice(DEVICE_READS[:3]) if rng.random() < 0.93 else DEVICE_READS[3]
+        return ["read", "device", c, d, a]
+    if r < 0.76:
+        return ["read", "player", rng.choice(PREADS)]
+    if r < 0.90:
+        return ["read", "playern", rng.choice([0, 0, 1, 1, 2, 3]), rng.choice(PREADS)]
+    if r < 0.95:
+        return ["read", "mode", rng.choice(["m1", "m1", "m1", "nomode"]), rng.choice(["active", "priority", "stopping"])]
+    return ["read", "game", rng.choice(list(GAME_ATTRS) + ["nope"])]
+
+
+def rleaf(rng, ext, names, subscribable_only=False):
     r = rng.random()
     if r < 0.35:
         return rlit(rng, ext)
-    if r < 0.60:
+    if r < 0.58:
         return ["name", rng.choice(names)]
-    if r < 0.78:
-        return ["read", "machine", rng.choice(MVARS)]
-    if r < 0.86:
-        return ["read", "settings", rng.choice(list(SETTINGS))]
-    if r < 0.94:
-        return ["read", "device", rng.choice(SWITCHES)]
-    return ["read", "player", rng.choice(PVARS)]
+    while True:
+        t = rread(rng)
+        if subscribable_only and t[1] in ("mode", "game"):
+            continue
+        return t
 
 
-def rexpr(rng, budget, ext, names):
+def rexpr(rng, budget, ext, names, so=False):
     if budget <= 1 or rng.random() < 0.12:
-        return rleaf(rng, ext, names)
+        return rleaf(rng, ext, names, so)
     r = rng.random()
-    if r < 0.38:
+    if r < 0.34:
         k = budget - 1
         la = rng.randint(1, max(1, k - 1))
-        return ["bin", rng.choice(list(PY_BIN)), rexpr(rng, la, ext, names), rexpr(rng, k - la, ext, names)]
-    if r < 0.50:
-        return ["un", rng.choice(["USub", "USub", "Not"]), rexpr(rng, budget - 1, ext, names)]
-    if r < 0.70:
+        return ["bin", rng.choice(list(PY_BIN)), rexpr(rng, la, ext, names, so), rexpr(rng, k - la, ext, names, so)]
+    if r < 0.44:
+        return ["un", rng.choice(["USub", "USub", "Not"]), rexpr(rng, budget - 1, ext, names, so)]
+    if r < 0.62:
         k = budget - 1
         la = rng.randint(1, max(1, k - 1))
-        return ["cmp", rng.choice(list(PY_CMP)), rexpr(rng, la, ext, names), rexpr(rng, k - la, ext, names)]
-    if r < 0.85:
+        op = rng.choice(MPF_CMP) if rng.random() < 0.96 else rng.choice(["In", "NotIn"])
+        return ["cmp", op, rexpr(rng, la, ext, names, so), rexpr(rng, k - la, ext, names, so)]
+    if r < 0.75:
         n = rng.choice([2, 2, 3, 4])
         k = max(n, budget - 1)
-        return ["boolop", rng.choice(["And", "Or"]), [rexpr(rng, max(1, k // n), ext, names) for _ in range(n)]]
-    if ext and r < 0.90:
-        n = rng.choice([0, 1, 2, 3])
-        return ["tuple", [rexpr(rng, max(1, (budget - 1) // max(n, 1)), ext, names) for _ in range(n)]]
-    if ext and r < 0.95:
-        return ["sub", rexpr(rng, max(1, budget - 2), ext, names), rexpr(rng, 2, ext, names)]
+        return ["boolop", rng.choice(["And", "Or"]), [rexpr(rng, max(1, k // n), ext, names, so) for _ in range(n)]]
+    if r < 0.83:
+        n = rng.choice([0, 1, 2, 2, 3])
+        return ["tuple", [rexpr(rng, max(1, (budget - 1) // max(n, 1)), ext, names, so) for _ in range(n)]]
+    if r < 0.90:
+        if rng.random() < 0.5:
+            idx = ["num", str(rng.randint(0, 3))] if rng.random() < 0.6 else ["un", "USub", ["num", str(rng.randint(1, 3))]]
+        else:
+            idx = rexpr(rng, 2, ext, names, so)
+        return ["sub", rexpr(rng, max(1, budget - 2), ext, names, so), idx]
     k = budget - 1
-    return ["if", rexpr(rng, max(1, k // 3), ext, names), rexpr(rng, max(1, k // 3), ext, names),
-            rexpr(rng, max(1, k // 3), ext, names)]
+    return ["if", rexpr(rng, max(1, k // 3), ext, names, so), rexpr(rng, max(1, k // 3), ext, names, so),
+            rexpr(rng, max(1, k // 3), ext, names, so)]
+
+
+def read_ast(t):
+    def attr(v, a):
+        return ast.Attribute(v, a, ast.Load())
+
+    def name(n):
+        return ast.Name(n, ast.Load())
+    k = t[1]
+    if k == "machine":
+        return attr(name("machine"), t[2])
+    if k == "settings":
+        return attr(name("settings"), t[2])
+    if k == "player":
+        return attr(name("current_player"), t[2])
+    if k == "playern":
+        return attr(ast.Subscript(name("players"), ast.Constant(int(t[2])), ast.Load()), t[3])
+    if k == "mode":
+        return attr(attr(name("mode"), t[2]), t[3])
+    if k == "game":
+        return attr(name("game"), t[2])
+    return attr(attr(attr(name("device"), t[2]), t[3]), t[4])
 
 
 def to_ast(t):
@@ -566,14 +881,7 @@ def to_ast(t):
     if k == "name":
         return ast.Name(t[1], ast.Load())
     if k == "read":
-        if t[1] == "machine":
-            return ast.Attribute(ast.Name("machine", ast.Load()), t[2], ast.Load())
-        if t[1] == "settings":
-            return ast.Attribute(ast.Name("settings", ast.Load()), t[2], ast.Load())
-        if t[1] == "player":
-            return ast.Attribute(ast.Name("current_player", ast.Load()), t[2], ast.Load())
-        return ast.Attribute(ast.Attribute(ast.Attribute(ast.Name("device", ast.Load()), "switches", ast.Load()),
-                                           t[2], ast.Load()), "state", ast.Load())
+        return read_ast(t)
     if k == "bin":
         return ast.BinOp(to_ast(t[2]), getattr(ast, t[1])(), to_ast(t[3]))
     if k == "un":
@@ -610,25 +918,25 @@ class RefErr(Exception):
 def ref_eval(t, env, trace):
     """Python's evaluation of the tree with all BoolOp operands evaluated; CPython's own operators.
     env: {"params": {...}, "store": {loc-key: ("val", v) | ("valerr",) | ("crash",)}}
-    trace: {"reads": [...], "float": bool, "fmt": bool, "nodes": n}"""
+    trace: {"reads": [...], "unsup": bool, "nodes": n, "unsubscribable": bool}"""
     k = t[0]
     trace["nodes"] = trace.get("nodes", 0) + 1
 
-    def done(r):
+    def done(r, kind, op, a, b=None):
+        if model_unsup(kind, op, a, b, r):
+            trace["unsup"] = True
         if r[0] == "val":
-            if has_float(r[1]):
-                trace["float"] = True
             return check_size(r[1])
-        if r[0] == "type":
-            raise RefErr("type")
-        if r[0] == "zero":
-            raise RefErr("zero")
+        if r[0] in ("type", "zero", "index"):
+            raise RefErr(r[0])
         raise RefErr("other", r[1])
     if k == "num":
         return int(t[1])
     if k == "flt":
-        trace["float"] = True
-        return float(t[1])
+        v = float(t[1])
+        if not float_ok(v):
+            trace["unsup"] = True
+        return v
     if k == "str":
         return t[1]
     if k == "none":
@@ -638,13 +946,15 @@ def ref_eval(t, env, trace):
     if k == "name":
         if t[1] in env["params"]:
             v = env["params"][t[1]]
-            if has_float(v):
-                trace["float"] = True
+            if not val_in_dom(v):
+                trace["unsup"] = True
             return v
         raise RefErr("name")
     if k == "read":
         key = lockey(t)
         trace.setdefault("reads", []).append(key)
+        if t[1] in ("mode", "game"):
+            trace["unsubscribable"] = True
         r = env["store"][key]
         if r[0] == "val":
             return r[1]
@@ -653,16 +963,16 @@ def ref_eval(t, env, trace):
         a = ref_eval(t[2], env, trace)
         b = ref_eval(t[3], env, trace)
         guard_size("bin", t[1], a, b)
-        if t[1] == "Mod" and isinstance(a, str) and "%" in a:
-            trace["fmt"] = True
-        return done(py_apply("bin", t[1], a, b))
+        return done(py_apply("bin", t[1], a, b), "bin", t[1], a, b)
     if k == "un":
         a = ref_eval(t[2], env, trace)
-        return done(py_apply("un", t[1], a))
+        return done(py_apply("un", t[1], a), "un", t[1], a)
     if k == "cmp":
         a = ref_eval(t[2], env, trace)
         b = ref_eval(t[3], env, trace)
-        return done(py_apply("cmp", t[1], a, b))
+        if t[1] not in MPF_CMP:
+            trace["unsupported_op"] = True
+        return done(py_apply("cmp", t[1], a, b), "cmp", t[1], a, b)
     if k == "boolop":
         vals = [ref_eval(x, env, trace) for x in t[2]]
         r = vals[0]
@@ -673,16 +983,13 @@ def ref_eval(t, env, trace):
         c = ref_eval(t[1], env, trace)
         return ref_eval(t[2], env, trace) if c else ref_eval(t[3], env, trace)
     if k == "tuple":
-        return tuple(ref_eval(x, env, trace) for x in t[1])
+        return check_size(tuple(ref_eval(x, env, trace) for x in t[1]))
     if k == "sub":
         a = ref_eval(t[1], env, trace)
         i = ref_eval(t[2], env, trace)
-        try:
-            return a[i]
-        except TypeError:
-            raise RefErr("type")
-        except Exception as e:
-            raise RefErr("other", type(e).__name__)
+        if isinstance(a, list):
+            trace["unsup"] = True
+        return done(py_apply("index", "Index", a, i), "index", "Index", a, i)
     raise ValueError(k)
 
 
@@ -696,31 +1003,49 @@ def ref_result(t, env):
 
 
 def lockey(t):
-    return "%s.%s" % (t[1], t[2])
+    return ".".join(str(x) for x in t[1:])
 
 
-def gen_env(rng, ext, in_game=False):
+def player_var(e, i, x):
+    """value of variable x of player index i in the env (Player.__getattr__ gives 0 for an unset variable)"""
+    pv = e["pvars"].get(str(i), {})
+    if x in pv:
+        return untag(pv[x])
+    if x == "number":
+        return i + 1
+    if x == "index":
+        return i
+    if x == "ball":
+        return e["game"].get("balls", [1] + [0] * 8)[i]
+    return 0
+
+
+def gen_env(rng, ext, game=None):
     params = {}
     for n in PARAMS:
         if rng.random() < 0.8:
-            params[n] = rvalue(rng, ext)
-    if ext:
-        params["tu"] = tuple(rvalue(rng, False) for _ in range(rng.randint(0, 4)))
+            params[n] = rvalue(rng, True, True)
+    if rng.random() < 0.7:
+        params["tu"] = tuple(rscalar(rng) for _ in range(rng.randint(0, 4)))
+    if rng.random() < 0.7:
         params["st"] = rng.choice(STRS)
+    if ext and rng.random() < 0.5:
+        params["li"] = [rscalar(rng, False) for _ in range(rng.randint(0, 3))]
     mvars = {}
     for n in MVARS:
         if rng.random() < 0.7:
-            mvars[n] = rvalue(rng, False)
+            mvars[n] = rstored(rng)
     settings = {n: rng.choice(SETTING_VALUES[n]) for n in SETTINGS}
     switches = {n: rng.choice([0, 1]) for n in SWITCHES}
     pvars = {}
-    if in_game:
-        for n in PVARS:
-            if rng.random() < 0.7:
-                pvars[n] = rvalue(rng, False)
+    if game:
+        for i in range(game["n"]):
+            pvars[str(i)] = {n: tagv(rstored(rng) if n != "score" else rng.choice([0, 10, 500, 1200]))
+                             for n in PVARS if rng.random() < 0.6}
     return {"params": {k: tagv(v) for k, v in params.items()}, "mvars": {k: tagv(v) for k, v in mvars.items()},
             "settings": {k: tagv(v) for k, v in settings.items()}, "switches": switches,
-            "pvars": {k: tagv(v) for k, v in pvars.items()}, "in_game": in_game}
+            "flipper": rng.random() < 0.4, "modes": {"m1": rng.random() < 0.5},
+            "pvars": pvars, "game": game}
 
 
 def env_store(e):
@@ -730,23 +1055,35 @@ def env_store(e):
     for n in SETTINGS:
         st["settings." + n] = ("val", untag(e["settings"][n]) if n in e["settings"] else SETTING_DEFAULT[n])
     for n in SWITCHES:
-        st["device." + n] = ("val", e["switches"][n])
-    for n in PVARS:
-        if e["in_game"]:
-            st["player." + n] = ("val", untag(e["pvars"][n])) if n in e["pvars"] else ("val", 0)
-        else:
-            st["player." + n] = ("valerr",)
+        st["device.switches.%s.state" % n] = ("val", e["switches"][n])
+    st["device.flippers.fl.enabled"] = ("val", bool(e["flipper"]))
+    st["device.switches.sw_a.nope"] = ("valerr",)
+    g = e["game"]
+    for x in PREADS:
+        st["player." + x] = ("val", player_var(e, g["cur"], x)) if g else ("valerr",)
+        for i in range(MAX_PLAYERS):
+            st["playern.%d.%s" % (i, x)] = ("val", player_var(e, i, x)) if g and i < g["n"] else ("valerr",)
+    act = bool(e["modes"].get("m1"))
+    st["mode.m1.active"] = ("val", act)
+    st["mode.m1.priority"] = ("val", 200 if act else 0)
+    st["mode.m1.stopping"] = ("val", False)
+    for a in ("active", "priority", "stopping"):
+        st["mode.nomode." + a] = ("valerr",)
+    for a, v in GAME_ATTRS.items():
+        st["game." + a] = ("val", g["n"] if a == "num_players" else v) if g else ("valerr",)
+    st["game.nope"] = ("crash",) if g else ("valerr",)
     return {"params": {k: untag(v) for k, v in e["params"].items()}, "store": st}
 
 
-DEFAULTS = {"raw": [None, 77, "DEF", False], "bool": [False, True, False, None], "int": [0, -1, 7, None]}
+DEFAULTS = {"raw": [None, 77, "DEF", False, 2.5], "bool": [False, True, False, None], "int": [0, -1, 7, None],
+            "float": [0.0, 1.5, 7, None]}
 
 
-def gen_expr_case(rng, ext, in_game=False):
+def gen_expr_case(rng, ext, game=None, so=False):
     while True:
-        env = gen_env(rng, ext, in_game)
-        names = PARAMS + ["zz"] + (["tu", "st"] if ext else [])
-        t = rexpr(rng, rng.choice([2, 3, 5, 8, 12, 18, 25]), ext, names)
+        env = gen_env(rng, ext, game)
+        names = PARAMS + ["zz", "tu", "st"] + (["li"] if ext else [])
+        t = rexpr(rng, rng.choice([2, 3, 5, 8, 12, 18, 25]), ext, names, so)
         try:
             text = to_text(t)
             ref, trace = ref_result(t, env_store(env))
@@ -754,24 +1091,39 @@ def gen_expr_case(rng, ext, in_game=False):
             continue
         if len(text) > 600:
             continue
-        kind = rng.choice(["raw", "raw", "bool", "int"])
+        kind = rng.choice(["raw", "raw", "raw", "bool", "int", "float"])
         default = rng.choice(DEFAULTS[kind])
         return {"tree": t, "text": text, "env": env, "kind": kind, "default": tagv(default)}
 
 
+EXPR_GAME = {"cur": 0, "n": 2, "balls": [1, 0]}
+
+
 def gen_expr(rng, tier, i):
-    return gen_expr_case(rng, False)
+    return gen_expr_case(rng, False, dict(EXPR_GAME) if rng.random() < 0.5 else None)
 
 
 def gen_ext(rng, tier, i):
-    return gen_expr_case(rng, True)
+    return gen_expr_case(rng, True, dict(EXPR_GAME) if rng.random() < 0.5 else None)
 
 
-def _expr_rig():
-    from rig import Rig
-    if "expr" not in _R:
-        _R["expr"] = Rig(MACHINE_CONFIG).start()
-    return _R["expr"]
+def _new_rig():
+    from rig import FakeGameRig
+    return FakeGameRig(MACHINE_CONFIG, modes=MODES_CONFIG).start()
+
+
+def _expr_rig(in_game):
+    key = "expr_game" if in_game else "expr"
+    if key not in _R:
+        r = _new_rig()
+        if in_game:
+            r.start_game()
+            r.add_player()
+            r.advance(1)
+            g = r.machine.game
+            assert g and g.num_players == 2 and g.player.number == 1 and g.player.ball == 1
+        _R[key] = r
+    return _R[key]
 
 
 def setup_env(rig, e):
@@ -785,20 +1137,41 @@ def setup_env(rig, e):
     for n, v in e["switches"].items():
         if m.switch_controller.is_active(m.switches[n]) != bool(v):
             rig.machine.switch_controller.process_switch(n, v, logical=True)
-    rig.advance(0.01)
+    fl = m.flippers["fl"]
+    if bool(fl._enabled) != bool(e["flipper"]):
+        m.events.post("fl_on" if e["flipper"] else "fl_off")
+    if bool(m.modes["m1"].active) != bool(e["modes"].get("m1")):
+        m.events.post("m1_start" if e["modes"].get("m1") else "m1_stop")
+    rig.advance(0.05)
+    assert bool(fl._enabled) == bool(e["flipper"]) and bool(m.modes["m1"].active) == bool(e["modes"].get("m1"))
+
+
+def setup_players(rig, e):
+    g = rig.machine.game
+    for i, p in enumerate(g.player_list):
+        for n in ("pv_a", "pv_b"):
+            p.vars.pop(n, None)
+        p.vars["score"] = 0
+        for n, t in e["pvars"].get(str(i), {}).items():
+            p.vars[n] = untag(t)
 
 
 def run_expr(case):
-    rig = _expr_rig()
-    setup_env(rig, case["env"])
+    case = norm_case(case)
+    e = case["env"]
+    rig = _expr_rig(bool(e["game"]))
+    setup_env(rig, e)
+    if e["game"]:
+        setup_players(rig, e)
     pm = rig.machine.placeholder_manager
-    params = {k: untag(v) for k, v in case["env"]["params"].items()}
+    params = {k: untag(v) for k, v in e["params"].items()}
     default = untag(case["default"])
-    ref, trace = ref_result(case["tree"], env_store(case["env"]))
+    ref, trace = ref_result(case["tree"], env_store(e))
     out = {"ev": mpf_eval(pm, case["kind"], case["text"], default, params),
            "sub": mpf_eval(pm, case["kind"], case["text"], default, params, subscribe=True),
            "ref": [ref[0]] + ([tagv(ref[1])] if ref[0] == "val" else list(ref[1:])),
-           "float": bool(trace.get("float")), "fmt": bool(trace.get("fmt")), "reads": trace.get("reads", [])}
+           "unsup": bool(trace.get("unsup")), "unsub": bool(trace.get("unsubscribable")),
+           "badop": bool(trace.get("unsupported_op")), "reads": trace.get("reads", [])}
     rig.advance(0)
     return out
 
@@ -809,6 +1182,9 @@ def out_ref(out):
 
 
 def oracle_expr(case, out):
+    case = norm_case(case)
+    if out.get("badop"):
+        return []                 # in / not in evaluated: outside the property's grammar
     ref = out_ref(out)
     kind, default = case["kind"], untag(case["default"])
     fails = []
@@ -816,6 +1192,8 @@ def oracle_expr(case, out):
         if want is None or same_out(out[which], want):
             continue
         got = out[which]
+        if which == "sub" and out.get("unsub") and "exc" in got:
+            continue              # mode.* / game.* cannot be subscribed: raising is not a wrong or stale value
         sig = "template-differs-from-python"
         if ref[0] == "type" and got.get("exc") == "AssertionError":
             sig = "typeerror-escapes"
@@ -839,33 +1217,36 @@ def only_unary_minus_fails(case, out):
                 a = py_apply("un", "USub", r[1])
                 if a[0] == "type":
                     found.append(True)
-        for x in t[1:]:
-            if isinstance(x, list) and x and isinstance(x[0], str) and x[0] in (
-                    "bin", "un", "cmp", "boolop", "if", "tuple", "sub", "num", "str", "name", "read", "none", "bool", "flt"):
-                walk(x, env)
-            elif isinstance(x, list):
-                for y in x:
-                    if isinstance(y, list):
-                        walk(y, env)
+        for x in subtrees(t):
+            walk(x, env)
     walk(case["tree"], env_store(case["env"]))
     return bool(found)
 
 
-def cloc(key):
-    kind, name = key.split(".", 1)
-    if kind == "machine":
-        return "(LMachine %s)" % cstr(name)
-    if kind == "settings":
-        return "(LSetting %s)" % cstr(name)
-    if kind == "player":
-        return "(LPlayer %s)" % cstr(name)
-    return "(LDevice %s %s %s)" % (cstr("switches"), cstr(name), cstr("state"))
+def cloc_read(t):
+    """the rdesc term of a read node"""
+    k = t[1]
+    if k == "machine":
+        return "(RCell (LMachine %s))" % cstr(t[2])
+    if k == "settings":
+        return "(RCell (LSetting %s))" % cstr(t[2])
+    if k == "player":
+        return "(RCur %s)" % cstr(t[2])
+    if k == "playern":
+        return "(RPlayerN %s %s)" % (zlit(int(t[2])), cstr(t[3]))
+    if k == "mode":
+        return "(RCell (LMode %s %s))" % (cstr(t[2]), cstr(t[3]))
+    if k == "game":
+        return "(RCell (LGame %s))" % cstr(t[2])
+    return "(RCell (LDevice %s %s %s))" % (cstr(t[2]), cstr(t[3]), cstr(t[4]))
 
 
 def cexpr(t):
     k = t[0]
     if k == "num":
         return "(ENum %s)" % zlit(int(t[1]))
+    if k == "flt":
+        return cfloat(float(t[1]), "EFlt")
     if k == "str":
         return "(EStr %s)" % cstr(t[1])
     if k == "none":
@@ -875,7 +1256,7 @@ def cexpr(t):
     if k == "name":
         return "(EName %s)" % cstr(t[1])
     if k == "read":
-        return "(ERead %s)" % cloc(lockey(t))
+        return "(ERead %s)" % cloc_read(t)
     if k == "bin":
         return "(EBin %s %s %s)" % (AST_KEYS[t[1]], cexpr(t[2]), cexpr(t[3]))
     if k == "un":
@@ -889,24 +1270,53 @@ def cexpr(t):
         return acc
     if k == "if":
         return "(EIf %s %s %s)" % (cexpr(t[1]), cexpr(t[2]), cexpr(t[3]))
+    if k == "tuple":
+        acc = "ETupNil"
+        for x in reversed(t[1]):
+            acc = "(ETupCons %s %s)" % (cexpr(x), acc)
+        return acc
+    if k == "sub":
+        return "(EIndex %s %s)" % (cexpr(t[1]), cexpr(t[2]))
     raise ValueError(k)
 
 
-def cenv(e):
+def cenv(e, games=None):
+    """games: number of games started so far in the model's history (1 when the case begins inside a game)"""
     params = coqlist("(%s, %s)" % (cstr(k), cval(v)) for k, v in e["params"].items())
+    g = e["game"]
+    gno = (1 if g else 0) if games is None else games
     st = []
     for n, t in e["mvars"].items():
         st.append("(LMachine %s, RVal %s)" % (cstr(n), cval(t)))
     for n, t in e["settings"].items():
         st.append("(LSetting %s, RVal %s)" % (cstr(n), cval(t)))
     for n, v in e["switches"].items():
-        st.append("(%s, RVal (VInt %d))" % (cloc("device." + n), v))
-    for n, t in e["pvars"].items():
-        st.append("(LPlayer %s, RVal %s)" % (cstr(n), cval(t)))
-    return "(mkEnv %s %s %s)" % (params, coqlist(st), blit(e["in_game"]))
+        st.append("(LDevice %s %s %s, RVal (VInt %d))" % (cstr("switches"), cstr(n), cstr("state"), v))
+    st.append("(LDevice %s %s %s, RVal (VBool %s))" % (cstr("flippers"), cstr("fl"), cstr("enabled"), blit(e["flipper"])))
+    st.append("(LDevice %s %s %s, RValErr)" % (cstr("switches"), cstr("sw_a"), cstr("nope")))
+    act = bool(e["modes"].get("m1"))
+    st.append("(LMode %s %s, RVal (VBool %s))" % (cstr("m1"), cstr("active"), blit(act)))
+    st.append("(LMode %s %s, RVal (VInt %d))" % (cstr("m1"), cstr("priority"), 200 if act else 0))
+    st.append("(LMode %s %s, RVal (VBool false))" % (cstr("m1"), cstr("stopping")))
+    if g:
+        for a, v in GAME_ATTRS.items():
+            v = g["n"] if a == "num_players" else v
+            st.append("(LGame %s, RVal %s)" % (cstr(a), cval(tagv(v))))
+        balls = g.get("balls", [1] + [0] * 8)
+        for i in range(g["n"]):
+            st.append("(LPlayerI %d %d %s, RVal (VInt %d))" % (gno, i, cstr("number"), i + 1))
+            st.append("(LPlayerI %d %d %s, RVal (VInt %d))" % (gno, i, cstr("index"), i))
+            if balls[i]:
+                st.append("(LPlayerI %d %d %s, RVal (VInt %d))" % (gno, i, cstr("ball"), balls[i]))
+            pv = dict(e["pvars"].get(str(i), {}))
+            pv.setdefault("score", ["i", "0"])
+            for n, t in pv.items():
+                st.append("(LPlayerI %d %d %s, RVal %s)" % (gno, i, cstr(n), cval(t)))
+    gm = "(Some (%d, %d))" % (g["cur"], g["n"]) if g else "None"
+    return "(mkEnv %s %s %d %s)" % (params, coqlist(st), gno, gm)
 
 
-CKIND = {"raw": "KRaw", "bool": "KBoolT", "int": "KIntT"}
+CKIND = {"raw": "KRaw", "bool": "KBoolT", "int": "KIntT", "float": "KFloatT"}
 
 
 def coutcome(o):
@@ -918,16 +1328,16 @@ def coutcome(o):
 
 
 def model_domain_expr(case, out):
-    if out["float"] or out["fmt"]:
+    if out["unsup"]:
         return False
     if not all(in_dom(v) for v in case["env"]["params"].values()):
         return False
     ref = out["ref"]
     if ref[0] == "other" and ref[1] != "crash":
         return False
-    if case["kind"] == "int":
+    if case["kind"] in ("int", "float"):
         if ref[0] == "val" and ref[1][0] == "s":
-            return False                                   # int("text") is not modelled
+            return False                                   # int("text") / float("text") is not modelled
         if case["default"][0] == "s":
             return False
     return True
@@ -936,10 +1346,12 @@ def model_domain_expr(case, out):
 def cpres(ref):
     if ref[0] == "val":
         return "(PVal %s)" % cval(ref[1])
-    return {"type": "PTypeErr", "zero": "PZeroDiv", "name": "PNameErr", "read": "PReadErr", "other": "PCrash"}[ref[0]]
+    return {"type": "PTypeErr", "zero": "PZeroDiv", "index": "PIndexErr", "name": "PNameErr", "read": "PReadErr",
+            "other": "PCrash"}[ref[0]]
 
 
 def coq_expr(case, out):
+    case = norm_case(case)
     if not model_domain_expr(case, out):
         return None
     a, b = coutcome(out["ev"]), coutcome(out["sub"])
@@ -1004,6 +1416,7 @@ def shrink_tree(t):
 
 
 def shrink_expr(case):
+    case = norm_case(case)
     for t in shrink_tree(case["tree"]):
         try:
             text = to_text(t)
@@ -1044,68 +1457,11 @@ def describe_expr(case):
 # suite "hist": the real re-evaluate / re-subscribe loop (ConfigPlayer._update_subscription) under change histories
 def tree_reads(t):
     if t[0] == "read":
-        return [lockey(t)]
+        return [t]
     out = []
     for x in subtrees(t):
         out += tree_reads(x)
     return out
-
-
-def gen_hist(rng, tier, i):
-    while True:
-        case = gen_expr_case(rng, False, in_game=True)
-        if rng.random() < 0.85 and not has_read(case["tree"]):
-            continue
-        if tree_uses_names(case["tree"]):
-            continue                      # the loop evaluates with parameters []: a name always raises
-        break
-    case["kind"] = rng.choice(["raw", "raw", "bool"])
-    case["default"] = tagv(rng.choice(DEFAULTS[case["kind"]]))
-    case["env"]["params"] = {}
-    rd = tree_reads(case["tree"])
-    env = json.loads(json.dumps(case["env"]))
-    changes = []
-    for _ in range(rng.choice([1, 2, 3, 4, 6, 8])):
-        if rd and rng.random() < 0.75:
-            key = rng.choice(rd)
-        else:
-            key = rng.choice(["machine." + n for n in MVARS] + ["settings." + n for n in SETTINGS] +
-                             ["device." + n for n in SWITCHES] + ["player." + n for n in PVARS])
-        kind, name = key.split(".", 1)
-        if kind == "machine":
-            cur = env["mvars"].get(name)
-            if rng.random() < 0.2:
-                ch = ["rm", name]
-                env["mvars"].pop(name, None)
-            else:
-                v = pick_value(rng, cur)
-                ch = ["mv", name, v]
-                env["mvars"][name] = v
-        elif kind == "settings":
-            v = tagv(rng.choice(SETTING_VALUES[name]))
-            # through SettingsController.set_setting_value, or directly through the backing machine variable
-            # (valid values only: the same announcement rule, the same value read)
-            ch = ["set" if rng.random() < 0.5 else "setmv", name, v]
-            env["settings"][name] = v
-        elif kind == "device":
-            v = rng.choice([0, 1])
-            ch = ["sw", name, v]
-            env["switches"][name] = v
-        else:
-            v = pick_value(rng, env["pvars"].get(name))
-            ch = ["pv", name, v]
-            env["pvars"][name] = v
-        changes.append(ch)
-    case["changes"] = changes
-    # every intermediate store must keep the values small (the machine would really compute them)
-    env = json.loads(json.dumps(case["env"]))
-    try:
-        for ch in changes:
-            apply_env_change(env, ch)
-            ref_result(case["tree"], env_store(env))
-    except TooBig:
-        return gen_hist(rng, tier, i)
-    return case
 
 
 def tree_uses_names(t):
@@ -1118,11 +1474,13 @@ def pick_value(rng, cur):
         return cur                                             # coincidence: same value again
     if cur is not None and r < 0.18 and cur in (["i", "1"], ["i", "0"], ["b", True], ["b", False]):
         return {"1": ["b", True], "0": ["b", False], "True": ["i", "1"], "False": ["i", "0"]}[str(cur[1])]   # 1 <-> True
-    return tagv(rvalue(rng, False))
+    return tagv(rstored(rng))
 
 
 def apply_env_change(env, ch):
+    """the harness's own bookkeeping of what the store should now contain (env is modified in place)"""
     k = ch[0]
+    g = env["game"]
     if k == "mv":
         env["mvars"][ch[1]] = ch[2]
     elif k == "rm":
@@ -1131,19 +1489,143 @@ def apply_env_change(env, ch):
         env["settings"][ch[1]] = ch[2]
     elif k == "sw":
         env["switches"][ch[1]] = ch[2]
+    elif k == "fl":
+        env["flipper"] = bool(ch[1])
     elif k == "pv":
-        env["pvars"][ch[1]] = ch[2]
+        env["pvars"].setdefault(str(ch[1]), {})[ch[2]] = ch[3]
+    elif k == "start":
+        env["game"] = {"cur": 0, "n": 1, "balls": [1, 0, 0, 0]}
+        env["pvars"] = {}
+    elif k == "add":
+        g["n"] += 1
+    elif k == "next":
+        g["cur"] = (g["cur"] + 1) % g["n"]
+        g["balls"][g["cur"]] += 1
+    elif k == "end":
+        env["game"] = None
+        env["pvars"] = {}
+
+
+def lifecycle_options(g):
+    """the game-lifecycle changes possible in game state g"""
+    if g is None:
+        return ["start"]
+    opts = ["end"]
+    last_turn = g["cur"] == g["n"] - 1 and g["balls"][g["cur"]] >= BALLS_PER_GAME
+    if not last_turn:
+        opts += ["next", "next"]
+    if g["n"] < MAX_PLAYERS and g["balls"][g["cur"]] == 1:
+        opts.append("add")
+    return opts
+
+
+def gen_hist(rng, tier, i):
+    n0 = rng.choice([0, 1, 1, 2, 3])
+    game = {"cur": 0, "n": n0, "balls": [1, 0, 0, 0]} if n0 else None
+    while True:
+        case = gen_expr_case(rng, False, game, so=True)
+        if rng.random() < 0.9 and not has_read(case["tree"]):
+            continue
+        if tree_uses_names(case["tree"]):
+            continue                      # the loop evaluates with parameters []: a name always raises
+        break
+    case["kind"] = rng.choice(["raw", "raw", "bool"])
+    case["default"] = tagv(rng.choice(DEFAULTS[case["kind"]]))
+    case["env"]["params"] = {}
+    rd = tree_reads(case["tree"])
+    player_reads = [t for t in rd if t[1] in ("player", "playern")]
+    env = json.loads(json.dumps(case["env"]))
+    changes = []
+    for _ in range(rng.choice([1, 2, 3, 4, 6, 8])):
+        g = env["game"]
+        r = rng.random()
+        if r < (0.45 if player_reads else 0.12):
+            op = rng.choice(lifecycle_options(g))
+            ch = [op] if op != "end" else ["end", rng.random() < 0.35]
+        else:
+            if rd and rng.random() < 0.75:
+                t = rng.choice(rd)
+            else:
+                t = rread(rng)
+            kind = t[1]
+            if kind in ("mode", "game"):
+                t = ["read", "machine", rng.choice(MVARS)]
+                kind = "machine"
+            if kind in ("player", "playern") and g is None:
+                ch = ["start"]
+            elif kind == "machine":
+                cur = env["mvars"].get(t[2])
+                ch = ["rm", t[2]] if rng.random() < 0.2 else ["mv", t[2], pick_value(rng, cur)]
+            elif kind == "settings":
+                # through SettingsController.set_setting_value, or directly through the backing machine variable
+                # (valid values only: the same announcement rule, the same value read)
+                ch = ["set" if rng.random() < 0.5 else "setmv", t[2], tagv(rng.choice(SETTING_VALUES[t[2]]))]
+            elif kind == "device":
+                if t[2] == "flippers":
+                    ch = ["fl", rng.random() < 0.6]
+                else:
+                    ch = ["sw", t[3], rng.choice([0, 1])]
+            else:
+                x = t[-1] if t[-1] in PVARS else rng.choice(PVARS)
+                if kind == "player":
+                    i_p = g["cur"] if rng.random() < 0.7 else rng.randrange(g["n"])
+                else:
+                    i_p = int(t[2]) if int(t[2]) < g["n"] and rng.random() < 0.7 else rng.randrange(g["n"])
+                cur = env["pvars"].get(str(i_p), {}).get(x)
+                v = pick_value(rng, cur)
+                if x == "score" and v[0] not in ("i",):
+                    v = tagv(rng.choice([0, 10, 500, 1200]))
+                ch = ["pv", i_p, x, v]
+        changes.append(ch)
+        apply_env_change(env, ch)
+    case["changes"] = changes
+    # every intermediate store must keep the values small (the machine would really compute them)
+    env = json.loads(json.dumps(case["env"]))
+    try:
+        for ch in changes:
+            apply_env_change(env, ch)
+            ref_result(case["tree"], env_store(env))
+    except TooBig:
+        return gen_hist(rng, tier, i)
+    return case
 
 
 def _hist_rig():
-    from rig import FakeGameRig
     if "hist" not in _R:
-        r = FakeGameRig(MACHINE_CONFIG).start()
-        r.start_game()
-        r.advance(1)
-        assert r.machine.game and r.machine.game.player
-        _R["hist"] = r
+        _R["hist"] = _new_rig()
     return _R["hist"]
+
+
+def _slow_stop(rig, secs=0.5):
+    """a queue handler that delays mode_game_stopping: game_ended is then posted well before machine.game is None"""
+    m = rig.machine
+
+    def slow(queue, **kwargs):
+        queue.wait()
+        m.clock.schedule_once(lambda *a: queue.clear(), secs)
+    return m.events.add_handler("mode_game_stopping", slow)
+
+
+def game_state(m):
+    g = m.game
+    if not g or not g.player:
+        return None
+    return {"cur": g.player.index, "n": len(g.player_list), "ball": g.player.ball}
+
+
+def end_game(rig, slow=False):
+    m = rig.machine
+    if not m.game:
+        return
+    h = _slow_stop(rig) if slow else None
+    m.game.end_game()
+    rig.advance(2)
+    if h:
+        m.events.remove_handler_by_key(h)
+    if m.playfield.balls:
+        m.playfield.balls = 0
+        m.playfield.available_balls = 0
+    rig.advance(0.1)
 
 
 def apply_real_change(rig, ch):
@@ -1159,24 +1641,39 @@ def apply_real_change(rig, ch):
         m.variables.set_machine_var(SETTING_MV[ch[1]], untag(ch[2]))
     elif k == "sw":
         m.switch_controller.process_switch(ch[1], ch[2], logical=True)
+    elif k == "fl":
+        m.events.post("fl_on" if ch[1] else "fl_off")
     elif k == "pv":
-        m.game.player[ch[1]] = untag(ch[2])
-    rig.advance(0.01)
+        m.game.player_list[ch[1]][ch[2]] = untag(ch[3])
+    elif k == "start":
+        rig.start_game()
+    elif k == "add":
+        rig.add_player()
+    elif k == "next":
+        rig.drain_all_balls()
+    elif k == "end":
+        end_game(rig, ch[1])
+    rig.advance(0.05)
 
 
 def run_hist(case):
     import asyncio
     from mpf.core.config_player import ConfigPlayer
+    case = norm_case(case)
     rig = _hist_rig()
     m = rig.machine
     e = case["env"]
+    end_game(rig)
     setup_env(rig, e)
-    player = m.game.player
-    for n in PVARS:
-        player.vars.pop(n, None)
-    for n, t in e["pvars"].items():
-        player.vars[n] = untag(t)
-    rig.advance(0.01)
+    if e["game"]:
+        rig.start_game()
+        for _ in range(e["game"]["n"] - 1):
+            rig.add_player()
+        setup_players(rig, e)
+        rig.advance(0.05)
+    if game_state(m) != ({"cur": 0, "n": e["game"]["n"], "ball": 1} if e["game"] else None):
+        _R.pop("hist", None)
+        return {"harness_error": "could not establish the initial game state: %r" % game_state(m)}
     pm = m.placeholder_manager
     default = untag(case["default"])
     if case["kind"] == "raw":
@@ -1212,7 +1709,7 @@ def run_hist(case):
 
     def domain_now():
         ref, trace = ref_result(case["tree"], env_store(env))
-        if trace.get("float") or trace.get("fmt") or (ref[0] == "other" and ref[1] != "crash"):
+        if trace.get("unsup") or (ref[0] == "other" and ref[1] != "crash"):
             out["dom"] = False
         return trace.get("reads", [])
     domain_now()
@@ -1220,6 +1717,15 @@ def run_hist(case):
         before = state["calls"]
         apply_real_change(rig, ch)
         apply_env_change(env, ch)
+        gs = game_state(m)
+        want = {"cur": env["game"]["cur"], "n": env["game"]["n"], "ball": env["game"]["balls"][env["game"]["cur"]]} \
+            if env["game"] else None
+        if gs != want:
+            fut = sublist.get(template)
+            if fut is not None:
+                fut.cancel()
+            _R.pop("hist", None)
+            return {"harness_error": "game state after %r is %r, expected %r" % (ch, gs, want)}
         reads = domain_now()
         fresh = mpf_eval(pm, case["kind"], case["text"], default, [], subscribe=True)
         out["steps"].append({"fired": state["calls"] > before, "last": state["last"], "fresh": fresh, "reads": reads})
@@ -1246,17 +1752,24 @@ def py_equal(a, b):
     return "exc" in a and "exc" in b
 
 
+LIFECYCLE = ("start", "add", "next", "end")
+
+
+def store_diff(a, b):
+    return [k for k in a if json.dumps(a[k], default=str) != json.dumps(b.get(k), default=str)]
+
+
 def oracle_hist(case, out):
+    case = norm_case(case)
     fails = []
     dead = "exc" in out["init"]
     suspects = []
     env = json.loads(json.dumps(case["env"]))
-    effective = []
+    changed = []                                  # per change: the read keys whose value it really changed
     for ch in case["changes"]:
-        grp = {"mv": "mvars", "rm": "mvars", "set": "settings", "setmv": "settings", "sw": "switches", "pv": "pvars"}[ch[0]]
-        old = env[grp].get(ch[1], "absent")
+        before = env_store(env)["store"]
         apply_env_change(env, ch)
-        effective.append(old != env[grp].get(ch[1], "absent"))
+        changed.append(store_diff(before, env_store(env)["store"]))
     for i, (ch, st) in enumerate(zip(case["changes"], out["steps"])):
         if dead or "exc" in st["last"]:
             break
@@ -1264,24 +1777,26 @@ def oracle_hist(case, out):
             continue                         # evaluating now raises: no value to be stale against
         if st["fired"]:
             suspects = []
-        elif effective[i]:
-            suspects.append(ch)
+        elif changed[i]:
+            suspects.append((ch, changed[i]))
         if not py_equal(st["last"], st["fresh"]):
             rd = set(st["reads"]) | set(out["steps"][i - 1]["reads"] if i else [])
-            culprits = [c for c in suspects if chkey(c) in rd] or suspects
-            if culprits and all(c[0] == "pv" and c[2] == ["n"] for c in culprits):
+            culprits = [c for c, ks in suspects if set(ks) & rd] or [c for c, ks in suspects]
+            if culprits and all(c[0] == "pv" and c[3] == ["n"] for c in culprits):
                 fails.append({"sig": "stale-player-var-set-to-none",
                               "what": "a player variable set to None posts no player_<name> event: a subscribed template keeps the old value"})
+            elif culprits and all(c[0] == "end" for c in culprits):
+                fails.append({"sig": "stale-player-placeholder-after-game-end",
+                              "what": "%r: the game ended%s but the subscriber still holds %r; the template now evaluates to %r "
+                                      "(current_player / players are not woken once machine.game is None)" %
+                                      (case["text"], " (mode_game_stopping delayed by a queue handler)" if culprits[-1][1] else "",
+                                       st["last"], st["fresh"])})
             else:
                 fails.append({"sig": "stale-value",
                               "what": "%r: after change %d (%r) the subscriber still holds %r but the template now evaluates to %r" %
                                       (case["text"], i, ch, st["last"], st["fresh"])})
             break
     return fails
-
-
-def chkey(ch):
-    return {"mv": "machine.", "rm": "machine.", "set": "settings.", "setmv": "settings.", "sw": "device.", "pv": "player."}[ch[0]] + ch[1]
 
 
 def cchange(ch):
@@ -1294,12 +1809,25 @@ def cchange(ch):
         return "(CSetSetting %s %s)" % (cstr(ch[1]), cval(ch[2]))
     if k == "sw":
         return "(CSetDevice %s %s %s (VInt %d))" % (cstr("switches"), cstr(ch[1]), cstr("state"), ch[2])
-    return "(CSetPlayer %s %s)" % (cstr(ch[1]), cval(ch[2]))
+    if k == "fl":
+        return "(CSetDevice %s %s %s (VBool %s))" % (cstr("flippers"), cstr("fl"), cstr("enabled"), blit(ch[1]))
+    if k == "pv":
+        return "(CSetPlayerVar %d %s %s)" % (ch[1], cstr(ch[2]), cval(ch[3]))
+    if k == "start":
+        return "CStartGame"
+    if k == "add":
+        return "CAddPlayer"
+    if k == "next":
+        return "CNextTurn"
+    return "(CEndGame %s)" % blit(ch[1])
 
 
 def coq_hist(case, out):
+    case = norm_case(case)
     if not out["dom"]:
         return None
+    if any("exc" in st["last"] and "exc" not in st["fresh"] for st in out["steps"]):
+        return None        # the loop was killed by an evaluation in a transient state inside a lifecycle step (counted)
     outs = [out["init"]] + [st["last"] for st in out["steps"]]
     cs = [coutcome(o) for o in outs]
     if any(c is None for c in cs):
@@ -1310,12 +1838,26 @@ def coq_hist(case, out):
     return "(%s, %s)" % (inp, exp)
 
 
+def valid_history(case):
+    """lifecycle changes must be possible in the state they are applied in"""
+    env = json.loads(json.dumps(case["env"]))
+    for ch in case["changes"]:
+        g = env["game"]
+        if ch[0] in LIFECYCLE and ch[0] not in lifecycle_options(g):
+            return False
+        if ch[0] == "pv" and (g is None or ch[1] >= g["n"]):
+            return False
+        apply_env_change(env, ch)
+    return True
+
+
 def shrink_hist(case):
+    case = norm_case(case)
     ch = case["changes"]
     for i in range(len(ch)):
         c = dict(case)
         c["changes"] = ch[:i] + ch[i + 1:]
-        if c["changes"]:
+        if c["changes"] and valid_history(c):
             yield c
     for c in shrink_expr(case):
         if not tree_uses_names(c["tree"]):
@@ -1323,18 +1865,25 @@ def shrink_hist(case):
 
 
 def nontrivial_hist(case, out):
-    return any(chkey(c) in set(st["reads"]) or st["fired"] for c, st in zip(case["changes"], out["steps"]))
+    case = norm_case(case)
+    env = json.loads(json.dumps(case["env"]))
+    for c, st in zip(case["changes"], out["steps"]):
+        before = env_store(env)["store"]
+        apply_env_change(env, c)
+        if st["fired"] or set(store_diff(before, env_store(env)["store"])) & set(st["reads"]):
+            return True
+    return False
 
 
 def describe_hist(case):
     return "changes=%d %s" % (len(case["changes"]), ",".join(sorted(set(c[0] for c in case["changes"]))))
 
 
-HDR_HIST = "From C16 Require Import Model.\nDefinition run := hist_run.\nDefinition out_eqb := hist_out_eqb.\n"
+HDR_HIST = "From C16 Require Import Model.\nDefinition run := hist_run.\nDefinition out_eqb := hist_out_eqb.\n" + names_header()
 
 # ================================================================================================
-HDR_OPS = "From C16 Require Import Model.\nDefinition run := ops_run.\nDefinition out_eqb := res_eqb.\n"
-HDR_EXPR = "From C16 Require Import Model.\nDefinition run := expr_run.\nDefinition out_eqb := expr_out_eqb.\n"
+HDR_OPS = "From C16 Require Import Model.\nDefinition run := ops_run.\nDefinition out_eqb := res_eqb.\n" + names_header()
+HDR_EXPR = "From C16 Require Import Model.\nDefinition run := expr_run.\nDefinition out_eqb := expr_out_eqb.\n" + names_header()
 
 SUITES = [
     Suite("ops", gen_ops, run_ops, HDR_OPS, coq_ops, oracle_ops, shrink_ops, None,
@@ -1344,5 +1893,5 @@ SUITES = [
     Suite("hist", gen_hist, run_hist, HDR_HIST, coq_hist, oracle_hist, shrink_hist, nontrivial_hist,
           {"quick": 900, "thorough": 40000}, describe=describe_hist, shard=150),
     Suite("ext", gen_ext, run_expr, None, None, oracle_expr, shrink_expr, nontrivial_expr,
-          {"quick": 1500, "thorough": 50000}, describe=describe_expr),
+          {"quick": 800, "thorough": 50000}, describe=describe_expr),
 ]
